@@ -132,9 +132,12 @@ func (c *checker) run() int {
 	// cross-process pass: the same plans in other processes, another partition
 	// (so with another history before each plan), other GOMAXPROCS
 	every := 8
+	if c.prop == "C08" {
+		every = 2 // the order variant is what shows a dependence on earlier requests with the same seed
+	}
 	if c.tier == "thorough" {
 		every = 10
-		if c.prop == "C02" || c.prop == "C09" {
+		if c.prop == "C02" || c.prop == "C09" || c.prop == "C08" {
 			every = 3
 		}
 	}
@@ -163,7 +166,7 @@ func (c *checker) run() int {
 			}
 		}
 		a := runBatch(c.prop, c.seed, c.tier, indices, workers, []int{1, 4, 16}, "a")
-		b := runBatch(c.prop, c.seed, c.tier, sub, w2, []int{16, 1, 4}, "b")
+		b := runBatchV(c.prop, c.seed, c.tier, sub, w2, []int{16, 1, 4}, "b", true)
 		c.collect(a)
 		c.crossCompare(a, b)
 		c.handleDeaths(a)
@@ -237,34 +240,51 @@ func (c *checker) crossCompare(a, b *runOutcome) {
 			continue
 		}
 		c.crossChecked++
-		if ra.PlanDigest != rb.PlanDigest {
-			infra("plan %d was generated differently in two processes (generator is not a pure function of the seed)", i)
+		// pass B executed the variant (same operations, another legal order): compare by operation id
+		da := digestsByID(ra.OpDigests)
+		db := digestsByID(rb.OpDigests)
+		var ids []string
+		for id := range db {
+			ids = append(ids, id)
 		}
-		if len(ra.OpDigests) != len(rb.OpDigests) {
-			c.crossMismatch++
-			continue
-		}
-		for k := range ra.OpDigests {
-			if ra.OpDigests[k] != rb.OpDigests[k] {
-				c.crossMismatch++
-				da, db := ra.OpDigests[k], rb.OpDigests[k]
-				// rejected requests may word their details differently; only the verdict class must agree
-				ca, cb := classOf(da), classOf(db)
-				if ca == cb && ca != "ok" {
-					continue
-				}
-				if c.prop == "C02" || c.prop == "C09" {
-					v := Violation{Property: c.prop, Oracle: "differs-across-processes", Op: strings.SplitN(da, "=", 2)[0],
-						Key:    c.prop + "|differs-across-processes",
-						Detail: fmt.Sprintf("plan %d: the same operation was answered %s in one node process and %s in another (other GOMAXPROCS, other preceding history)", i, da, db)}
-					c.noteCross(v, i, a)
-				} else {
-					c.traceNote = append(c.traceNote, fmt.Sprintf("plan %d op %s differs across processes (%s vs %s)", i, strings.SplitN(da, "=", 2)[0], da, db))
-				}
-				break
+		sort.Strings(ids)
+		for _, id := range ids {
+			va, okA := da[id]
+			vb := db[id]
+			if !okA || va == vb {
+				continue
 			}
+			c.crossMismatch++
+			// rejected requests may word their details differently; only the verdict class must agree
+			ca, cb := classOf(id+"="+va), classOf(id+"="+vb)
+			if ca == cb && ca != "ok" {
+				continue
+			}
+			if ca == "blocked" || cb == "blocked" || ca == "fuel" || cb == "fuel" {
+				continue // a liveness matter, reported by C20's own oracles
+			}
+			if c.prop == "C02" || c.prop == "C09" || c.prop == "C08" {
+				v := Violation{Property: c.prop, Oracle: "differs-across-processes", Op: id,
+					Key:    c.prop + "|differs-across-processes",
+					Detail: fmt.Sprintf("plan %d: operation %s was answered %s in one node process and %s in another (other GOMAXPROCS, other preceding history, other order of the independent operations of the plan)", i, id, va, vb)}
+				c.noteCross(v, i, a)
+			} else {
+				c.traceNote = append(c.traceNote, fmt.Sprintf("plan %d op %s differs across processes (%s vs %s)", i, id, va, vb))
+			}
+			break
 		}
 	}
+}
+
+func digestsByID(ds []string) map[string]string {
+	m := map[string]string{}
+	for _, d := range ds {
+		p := strings.SplitN(d, "=", 2)
+		if len(p) == 2 {
+			m[p[0]] = p[1]
+		}
+	}
+	return m
 }
 
 func classOf(d string) string {
@@ -434,7 +454,7 @@ func (c *checker) makeReplay(fv *foundViolation) string {
 	if fv.plan == nil {
 		// cross-process difference: the replay is the plan run in two fresh nodes
 		plan := GenPlan(c.prop, c.seed, fv.index, c.tier)
-		rp := &Replay{Property: c.prop, Mode: "cross", Plans: []*Plan{plan}, Alone: plan, Expected: &fv.v}
+		rp := &Replay{Property: c.prop, Mode: "cross", Plans: []*Plan{plan}, Alone: Variant(plan), Expected: &fv.v}
 		if ok, _ := replayReproduces(rp); !ok {
 			// it needs the history of the node that ran it: the plans that node executed before
 			rp.Plans = append(c.historyPlans(fv), plan)
@@ -504,17 +524,25 @@ func replayReproduces(rp *Replay) (bool, *Violation) {
 		if d1 || d2 || len(r1) == 0 || len(r2) == 0 {
 			return false, nil
 		}
-		a, b := r1[len(r1)-1], r2[0]
-		for k := range a.OpDigests {
-			if k < len(b.OpDigests) && a.OpDigests[k] != b.OpDigests[k] {
-				ca, cb := classOf(a.OpDigests[k]), classOf(b.OpDigests[k])
-				if ca == cb && ca != "ok" {
-					continue
-				}
-				v := *rp.Expected
-				v.Detail = fmt.Sprintf("operation %s answered %s after the recorded history in one node and %s alone in another", strings.SplitN(a.OpDigests[k], "=", 2)[0], a.OpDigests[k], b.OpDigests[k])
-				return true, &v
+		a, b := digestsByID(r1[len(r1)-1].OpDigests), digestsByID(r2[0].OpDigests)
+		var ids []string
+		for id := range b {
+			ids = append(ids, id)
+		}
+		sort.Strings(ids)
+		for _, id := range ids {
+			va, ok := a[id]
+			vb := b[id]
+			if !ok || va == vb {
+				continue
 			}
+			ca, cb := classOf(id+"="+va), classOf(id+"="+vb)
+			if ca == cb && ca != "ok" {
+				continue
+			}
+			v := *rp.Expected
+			v.Detail = fmt.Sprintf("operation %s answered %s after the recorded plans in one node and %s in another node executing `alone` (same operations, other order)", id, va, vb)
+			return true, &v
 		}
 		return false, nil
 	case "race":
